@@ -37,6 +37,7 @@ class PosWorld:
         self.ctx.assume(z3.And(*self.pos.facts()))
         self.points = []
         self.hooks = []
+        self.objects = {"perms": [], "cums": [], "lasts": []}  # what the run created (conformance drivers pin these)
         for p in (self.pos.u, self.pos.u2):
             self.instantiate(p)
 
@@ -166,6 +167,7 @@ class SortPerm:
                 c.assume(z3.Implies(z3.And(w.inr(p), w.inr(q), q < p), real(x(pi(q))) <= real(x(pi(p)))))
 
         world.add_hook(hook)
+        world.objects["perms"].append(self)
 
 
 def np_argsort(world):
@@ -198,6 +200,7 @@ def np_cumsum(world):
         world.add_hook(hook)
         out = PArr(world, world.pos, lambda p: cum(p), desc=f"cumsum({a.desc})", cum_of=a)
         out.cum = cum
+        world.objects["cums"].append((cum, a))
         lemma_cumsum_total(world, a, out, "cumsum_total")  # the last entry is the total
         return out
 
@@ -227,6 +230,7 @@ class PSel:
 
             w.instantiate(k)
             w.add_hook(hook)
+            w.objects["lasts"].append((k, self.mask))
             return V(k)
         raise Undecided("np.where(mask)[0][i] other than the last element")
 
